@@ -38,6 +38,25 @@ def alias_changed(env, snap):
     return False
 
 
+def record_alias_fx(env, op, before, autoalias):
+    """After executing `op`: if the alias of a by-reference argument changed, either record the permitted side effect
+    on the op (alias_fx, replayed into the reference model) or say why the run is discarded."""
+    if not alias_changed(env, before):
+        return None
+    if not autoalias:
+        return "autoalias on a shared object"
+    fx = []
+    discard = None
+    for d, a in before:
+        cur = lib.state(env.heap[d]).get("alias")
+        if a is None and isinstance(cur, str):
+            fx.append([d, cur])
+        elif cur is not a and cur != a:
+            discard = "alias of an already aliased argument changed"  # judged by the final pass
+    op["alias_fx"] = fx
+    return discard
+
+
 def build_program(seed, run, tag=0xC01, overrides=None, prop=PROP):
     """Generate-as-you-go against a live heap (this is also the fault-free sequential dry run)."""
     rng = random.Random(gen.derive_seed(seed, run, tag))
